@@ -675,9 +675,10 @@ Theorem image_xattr_roundtrip : forall compress uncompress, contract compress un
 Proof. exact image_xattr_roundtrip_l. Qed.
 Print Assumptions image_xattr_roundtrip.
 
-(* xattr_codec_roundtrip_rel: C01's xattr_rt (logical streams, reader model of xattr_reader.c) with block-start hypotheses
-   that CAN hold: Properties_C01.xattr_rt asks "seeking to the start of block k finds block k" and "block starts fit 48 bits"
-   of ALL k : N, which no function satisfies (an injection N -> [0, 2^48)); here they are asked of the nK / nT blocks the two
+(* xattr_codec_roundtrip_rel: the codec round trip on logical streams with block-start hypotheses that CAN hold.  (Since the
+   integrator restated Properties_C01.xattr_rt from the same lemma this statement is a duplicate of it, kept because C03's
+   image_xattr_roundtrip cites it.)  History: until session 3 Properties_C01.xattr_rt asked "seeking to the start of block k finds block k" and "block starts fit 48 bits"
+   of ALL k : N, which no function satisfies (an injection N -> [0, 2^48)); now they are asked of the nK / nT blocks the two
    flushed streams use (ImgXattr/CodecRel.v; non-vacuity: ex_xattr_rel_hyps below) *)
 Theorem xattr_codec_roundtrip_rel :
   forall (bsK bsT : N -> N) (bidxK bidxT : N -> option N) (nK nT : N),
